@@ -11,13 +11,14 @@ Cases0 == {Enc0(M) : M \in [{c \in D4 : c < 256} -> G4]}
 \* format 2: single-byte codes 41 42 and two-byte codes 8140 8141 8240 8241 (two high bytes whose rows may coincide)
 D2 == {65, 66, 33088, 33089, 33344, 33345}
 Cases2 == {Enc2(M, d, sh) : M \in [D2 -> G2], d \in DL2, sh \in BOOLEAN}
+\* (a format 0 subtable assigns all 256 codes: zeros = the codes of interest it gives glyph 0)
 \* fonts: with/without cmap table; up to 3 subtable records over these (platform, encoding, format, content)
 PA == {<<65, 1>>}
 PB == {<<66, 2>>, <<65, 3>>}
-Recs == {[p |-> 0, e |-> 3, fmt |-> 4, pairs |-> PA], [p |-> 1, e |-> 0, fmt |-> 0, pairs |-> PB],
-         [p |-> 1, e |-> 0, fmt |-> 6, pairs |-> PB], [p |-> 3, e |-> 1, fmt |-> 4, pairs |-> PB],
-         [p |-> 3, e |-> 10, fmt |-> 12, pairs |-> PA], [p |-> 3, e |-> 0, fmt |-> 4, pairs |-> PA],
-         [p |-> 0, e |-> 4, fmt |-> 12, pairs |-> PB], [p |-> 3, e |-> 1, fmt |-> 0, pairs |-> PA]}
+Recs == {[p |-> 0, e |-> 3, fmt |-> 4, pairs |-> PA, zeros |-> {}], [p |-> 1, e |-> 0, fmt |-> 0, pairs |-> PB, zeros |-> {}],
+         [p |-> 1, e |-> 0, fmt |-> 6, pairs |-> PB, zeros |-> {}], [p |-> 3, e |-> 1, fmt |-> 4, pairs |-> PB, zeros |-> {}],
+         [p |-> 3, e |-> 10, fmt |-> 12, pairs |-> PA, zeros |-> {}], [p |-> 3, e |-> 0, fmt |-> 4, pairs |-> PA, zeros |-> {}],
+         [p |-> 0, e |-> 4, fmt |-> 12, pairs |-> PB, zeros |-> {}], [p |-> 3, e |-> 1, fmt |-> 0, pairs |-> PA, zeros |-> {66}]}
 CasesDir == {[kind |-> "dir", style |-> "dir", hascmap |-> h, subs |-> s] :
                h \in BOOLEAN, s \in UNION {[1..n -> Recs] : n \in 0..2}}
 MCCases == Cases4 \cup Cases0 \cup Cases2 \cup CasesDir
